@@ -39,18 +39,16 @@ pub struct Spec {
     pub pers: &'static [usize],
     /// optional type argument text
     pub ty: &'static str,
-    /// may only sit at the root level
-    pub root_only: bool,
 }
 
 const fn sp(name: &'static str, inn: In, out: Out, args: &'static str) -> Spec {
-    Spec { name, inn, out, args, pers: &[0], ty: "", root_only: false }
+    Spec { name, inn, out, args, pers: &[0], ty: "" }
 }
 const fn spp(name: &'static str, inn: In, out: Out, args: &'static str, pers: &'static [usize]) -> Spec {
-    Spec { name, inn, out, args, pers, ty: "", root_only: false }
+    Spec { name, inn, out, args, pers, ty: "" }
 }
 const fn src(name: &'static str, args: &'static str) -> Spec {
-    Spec { name, inn: In::Zero, out: Out::One, args, pers: &[0], ty: "", root_only: true }
+    Spec { name, inn: In::Zero, out: Out::One, args, pers: &[0], ty: "" }
 }
 
 const P01: &[&str] = &["0", "1"];
@@ -75,7 +73,7 @@ pub const CATALOGUE: &[Spec] = &[
     sp("flat_map", In::One, Out::One, "|x| { $R [x, $U] }"),
     sp("flatten", In::One, Out::One, ""),
     sp("inspect", In::One, Out::ZeroOrOne, "|x| { $R println!(\"{} {:?}\", $U, x) }"),
-    Spec { name: "identity", inn: In::One, out: Out::One, args: "", pers: &[0], ty: "usize", root_only: false },
+    Spec { name: "identity", inn: In::One, out: Out::One, args: "", pers: &[0], ty: "usize" },
     spp("enumerate", In::One, Out::One, "", &[0, 1]),
     spp("unique", In::One, Out::One, "", &[0, 1]),
     sp("sort", In::One, Out::One, ""),
@@ -127,8 +125,8 @@ pub const CATALOGUE: &[Spec] = &[
     sp("unzip", In::One, Out::Ports(P01), ""),
     sp("partition", In::One, Out::Named, ""),
     sp("demux_enum", In::One, Out::Named, ""),
-    Spec { name: "state", inn: In::One, out: Out::Ports(&["items", "state"]), args: "", pers: &[0, 1], ty: "lattices::Max<usize>", root_only: false },
-    Spec { name: "state_by", inn: In::One, out: Out::Ports(&["items", "state"]), args: "|x| { $R x }, lattices::Max::<usize>::default", pers: &[0, 1], ty: "", root_only: false },
+    Spec { name: "state", inn: In::One, out: Out::Ports(&["items", "state"]), args: "", pers: &[0, 1], ty: "lattices::Max<usize>" },
+    Spec { name: "state_by", inn: In::One, out: Out::Ports(&["items", "state"]), args: "|x| { $R x }, lattices::Max::<usize>::default", pers: &[0, 1], ty: "" },
     // loop windowing (inserted where an edge crosses a loop boundary)
     sp("batch", In::One, Out::One, ""),
     sp("batch_lazy", In::One, Out::One, ""),
@@ -168,7 +166,6 @@ struct OutEnd {
 
 #[derive(Clone, Debug, Default)]
 pub struct Meta {
-    pub family: &'static str,
     pub ops: BTreeSet<&'static str>,
     pub n_ops: usize,
     pub n_loops: usize,
@@ -263,7 +260,8 @@ impl G {
         // down: enter loops through batch()/batch_lazy() placed inside the child
         let down: Vec<usize> = up_to.iter().copied().take_while(|x| *x != lca).collect();
         for &child in down.iter().rev() {
-            let n = self.add(rng, if rng.chance(1, 4) { "batch_lazy" } else { "batch" }, child);
+            let w = if rng.chance(1, 4) { "batch_lazy" } else { "batch" };
+            let n = self.add(rng, w, child);
             self.connect(&cur, n, None);
             cur = OutEnd { node: n, port: None };
         }
@@ -287,7 +285,8 @@ impl G {
     }
     fn new_source(&mut self, rng: &mut Rng) -> OutEnd {
         const S: &[&str] = &["source_iter", "source_iter", "source_iter", "source_stream", "source_stdin", "source_interval", "source_json", "source_file", "source_stream_serde", "spin", "initialize"];
-        let n = self.add(rng, rng.choose(S), 0);
+        let w = *rng.choose(S);
+        let n = self.add(rng, w, 0);
         OutEnd { node: n, port: None }
     }
     fn pick_loop(&self, rng: &mut Rng, near: usize) -> usize {
@@ -409,13 +408,6 @@ fn open_outputs(g: &mut G, rng: &mut Rng, n: usize) {
     }
 }
 
-pub struct Cfg {
-    pub max_ops: usize,
-    pub p_loops: (u32, u32),
-    pub p_refs: (u32, u32),
-    pub p_back_edges: (u32, u32),
-}
-
 fn build_graph(rng: &mut Rng, meta: &mut Meta) -> G {
     let mut g = G { nodes: vec![], edges: vec![], loops: vec![0], uniq: rng.below(50), open: vec![], ref_targets: vec![] };
     // loop tree
@@ -430,7 +422,8 @@ fn build_graph(rng: &mut Rng, meta: &mut Meta) -> G {
             }
         }
     }
-    let target = 2 + rng.below(if rng.chance(1, 5) { 28 } else { 12 });
+    let span = if rng.chance(1, 5) { 28 } else { 12 };
+    let target = 2 + rng.below(span);
     let mut guard = 0;
     while g.nodes.len() < target && guard < 200 {
         guard += 1;
@@ -590,6 +583,11 @@ fn add_extras(g: &mut G, rng: &mut Rng, meta: &mut Meta) {
                 continue;
             }
             let name = format!("v{t}");
+            // mostly pick referencers that are not upstream of the handoff (those close a same-tick cycle)
+            let anc = g.ancestors(t);
+            let downstream: Vec<usize> = carriers.iter().copied().filter(|c| !anc.contains(c)).collect();
+            let all_carriers = carriers.clone();
+            let carriers: Vec<usize> = if !downstream.is_empty() && rng.chance(4, 5) { downstream } else { all_carriers };
             let mode = rng.below(10);
             if mode < 4 {
                 // ungrouped shared references
@@ -610,14 +608,16 @@ fn add_extras(g: &mut G, rng: &mut Rng, meta: &mut Meta) {
                 for gi in 0..ng {
                     let grp = base + gi * (1 + rng.below(2));
                     if rng.chance(1, 3) {
-                        let c = pick_distinct(rng, &carriers, &mut used, meta);
-                        g.nodes[c].refs.push(format!("let _ = #{{{grp}}} mut {name};"));
-                        meta.n_refs += 1;
+                        if let Some(c) = pick_distinct(rng, &carriers, &mut used, meta) {
+                            g.nodes[c].refs.push(format!("let _ = #{{{grp}}} mut {name};"));
+                            meta.n_refs += 1;
+                        }
                     } else {
                         for _ in 0..1 + rng.below(2) {
-                            let c = pick_distinct(rng, &carriers, &mut used, meta);
-                            g.nodes[c].refs.push(format!("let _ = #{{{grp}}} {name};"));
-                            meta.n_refs += 1;
+                            if let Some(c) = pick_distinct(rng, &carriers, &mut used, meta) {
+                                g.nodes[c].refs.push(format!("let _ = #{{{grp}}} {name};"));
+                                meta.n_refs += 1;
+                            }
                         }
                     }
                 }
@@ -626,26 +626,20 @@ fn add_extras(g: &mut G, rng: &mut Rng, meta: &mut Meta) {
     }
 }
 
-/// Pick a reference carrier; a carrier already used for this handoff (in another access group) is only
-/// chosen again very rarely — the compiler aborts on that (recorded as `same_op_two_groups`).
-fn pick_distinct(rng: &mut Rng, carriers: &[usize], used: &mut Vec<usize>, meta: &mut Meta) -> usize {
-    for _ in 0..8 {
-        let c = *rng.choose(carriers);
-        if !used.contains(&c) {
-            used.push(c);
-            return c;
-        }
-        if rng.chance(1, 60) {
-            meta.same_op_two_groups = true;
-            return c;
-        }
-    }
-    let c = *rng.choose(carriers);
-    if used.contains(&c) {
+/// Pick a reference carrier not yet used for this handoff; very rarely pick a used one on purpose (an
+/// operator in two access groups of one handoff makes the compiler abort; recorded as `same_op_two_groups`).
+fn pick_distinct(rng: &mut Rng, carriers: &[usize], used: &mut Vec<usize>, meta: &mut Meta) -> Option<usize> {
+    if !used.is_empty() && rng.chance(1, 150) {
         meta.same_op_two_groups = true;
+        return Some(*rng.choose(used));
     }
+    let free: Vec<usize> = carriers.iter().copied().filter(|c| !used.contains(c)).collect();
+    if free.is_empty() {
+        return None;
+    }
+    let c = *rng.choose(&free);
     used.push(c);
-    c
+    Some(c)
 }
 
 fn port(p: &Option<String>) -> String {
@@ -798,7 +792,7 @@ fn render(g: &G, rng: &mut Rng) -> String {
 
 /// One random program.
 pub fn random_program(rng: &mut Rng) -> Prog {
-    let mut meta = Meta { family: "random", ..Default::default() };
+    let mut meta = Meta::default();
     let mut g = build_graph(rng, &mut meta);
     add_extras(&mut g, rng, &mut meta);
     meta.n_ops = g.nodes.len();
@@ -832,8 +826,19 @@ pub const TINY_ALPHABET: &[(&str, &str)] = &[
 ];
 
 /// Enumerate every simple digraph (self-loops allowed, no parallel edges) on `k` nodes labelled by the
-/// non-decreasing label sequence `labels` that satisfies the operators' arities; calls `f(text)`.
-pub fn tiny_enumerate(k: usize, f: &mut dyn FnMut(&[usize], &[(usize, usize)], String)) {
+/// non-decreasing label sequence `labels` that satisfies the operators' arities.
+pub fn tiny_text(labels: &[usize], edges: &[(usize, usize)]) -> String {
+    let mut text = String::new();
+    for (i, l) in labels.iter().enumerate() {
+        text.push_str(&format!("n{i} = {};\n", TINY_ALPHABET[*l].1));
+    }
+    for (s, d) in edges {
+        text.push_str(&format!("n{s} -> n{d};\n"));
+    }
+    text
+}
+
+pub fn tiny_enumerate(k: usize, f: &mut dyn FnMut(&[usize], &[(usize, usize)])) {
     let a = TINY_ALPHABET.len();
     let mut labels = vec![0usize; k];
     loop {
@@ -862,14 +867,7 @@ pub fn tiny_enumerate(k: usize, f: &mut dyn FnMut(&[usize], &[(usize, usize)], S
                 _ => indeg[i] == 1,
             });
             if ok {
-                let mut text = String::new();
-                for i in 0..k {
-                    text.push_str(&format!("n{i} = {};\n", TINY_ALPHABET[labels[i]].1));
-                }
-                for (s, d) in &edges {
-                    text.push_str(&format!("n{s} -> n{d};\n"));
-                }
-                f(&labels, &edges, text);
+                f(&labels, &edges);
             }
             // next wiring
             let mut p = 0;
